@@ -2,6 +2,8 @@
 Helper lemmas for C15 (SafeLearner prediction formats).  Property statements live in `Props/C15.lean`.
 -/
 import CobaVerif.Model.C15
+import CobaVerif.Lemmas.C05
+import Mathlib.Tactic.NormNum
 
 namespace Coba.C15
 open PyVal
@@ -86,7 +88,6 @@ theorem predFormat_AP (fx : Fixes) (v : PyVal) (a p : PyVal) (as : List PyVal)
   cases v <;> simp [PyVal.items] at hv
   all_goals subst hv
   all_goals cases as <;> simp_all [predFormat, PyVal.isDict, PyVal.hasLen, PyVal.isStr, PyVal.len, getIdx, bind, Except.bind, pure, Except.pure]
-  all_goals cases fx.short <;> simp
 
 /-- a PMF over the actions: numeric, non-negative, summing to one -/
 def validPmf (pmf : List PyVal) (as : List PyVal) : Bool :=
@@ -106,8 +107,8 @@ theorem possiblePmf_valid (t : Bool) (pmf as : List PyVal) (h : validPmf pmf as 
   | some s =>
     simp [hs] at h2
     subst h2
-    have h0 : ((1 : Rat) - 1 ≤ 1 / 1000) := by decide
-    simp [possiblePmf, h1, hs, h0]
-    simpa using h3
+    have h0 : ((1 : Rat) - 1 ≤ 1 / 1000) := by norm_num
+    simp only [possiblePmf, items_mkSeq, h1, hs, h0, beq_self_eq_true, Bool.true_and, and_self, decide_true]
+    exact h3
 
 end Coba.C15
